@@ -170,6 +170,7 @@ def _no_forkid(self, tx_out_script, unsigned_txs_out_idx, hash_type):
 @contract("pycoin.coins.bcash.SolutionChecker:BcashSolutionChecker._signature_hash")
 class bch_signature_hash:
     props = ["C04"]
+    returns = Int(0, 2 ** 256 - 1)
     sig = dict(self=BCH_CHECKER, tx_out_script=Bytes(sample_max=80), unsigned_txs_out_idx=Int(0), hash_type=HT)
 
     def requires(self, tx_out_script, unsigned_txs_out_idx, hash_type):
@@ -187,6 +188,7 @@ class bch_signature_hash:
 @contract("pycoin.coins.bgold.SolutionChecker:BgoldSolutionChecker._signature_for_hash_type_segwit")
 class btg_sig_hash_segwit:
     props = ["C04"]
+    returns = Int(0, 2 ** 256 - 1)
     sig = dict(self=BTG_CHECKER, script=Bytes(sample_max=80), tx_in_idx=Int(0), hash_type=Int(0, 255))
 
     def requires(self, script, tx_in_idx, hash_type):
@@ -203,6 +205,7 @@ class btg_sig_hash_segwit:
 @contract("pycoin.coins.bgold.SolutionChecker:BgoldSolutionChecker._signature_hash")
 class btg_signature_hash:
     props = ["C04"]
+    returns = Int(0, 2 ** 256 - 1)
     sig = dict(self=BTG_CHECKER, tx_out_script=Bytes(sample_max=80), unsigned_txs_out_idx=Int(0), hash_type=Int(0, 255))
 
     def requires(self, tx_out_script, unsigned_txs_out_idx, hash_type):
